@@ -117,6 +117,90 @@ pub struct TransMidPayload(pub FailMarker, pub core::marker::PhantomData<u16>, p
 #[repr(transparent)]
 pub struct TransNested(pub TransTwoMarkers, pub FailMarker, pub FailMarker);
 
+/// A skipped field whose `Default` value owns heap memory, between two decoded fields, in structs of
+/// every representation (`repr(C)` structs are candidates for in-place decoding like transparent ones).
+#[derive(Default)]
+pub struct Scratch(pub Box<u64>, pub Vec<u8>);
+#[derive(Decode)]
+#[repr(C)]
+pub struct ReprCSkip {
+	pub a: Tracked,
+	#[codec(skip)]
+	pub s: Scratch,
+	pub b: Tracked,
+}
+#[derive(Decode)]
+pub struct PlainSkip {
+	pub a: Tracked,
+	#[codec(skip)]
+	pub s: Scratch,
+	pub b: Tracked,
+}
+#[derive(Decode)]
+#[repr(C)]
+pub struct ReprCSkipFirst(#[codec(skip)] pub Scratch, pub Tracked, pub Tracked);
+
+fn skipped_default_cases(ctx: &mut Ctx) {
+	for (what, bytes, n) in [("second field malformed", vec![5u8, 0xff], 0usize), ("second field missing", vec![5], 0), ("second field panics", vec![5, 0xfe], 0), ("first field malformed", vec![0xff, 5], 0), ("complete", vec![5, 6], 2)] {
+		macro_rules! one {
+			($label:expr, $t:ty, $bs:expr, $n:expr) => {{
+				let bs: Vec<u8> = $bs;
+				let (_s, problems) = observe(|| <$t>::decode(&mut &bs[..]), $n);
+				for p in problems {
+					ctx.oracle_fail("C10", format!("{} ({}): {}", $label, what, p));
+				}
+				ctx.count("ledger:cases", 1);
+			}};
+		}
+		one!("ReprCSkip", ReprCSkip, bytes.clone(), n);
+		one!("Box<ReprCSkip>", Box<ReprCSkip>, bytes.clone(), n);
+		one!("Rc<ReprCSkip>", Rc<ReprCSkip>, bytes.clone(), n);
+		one!("Arc<ReprCSkipFirst>", Arc<ReprCSkipFirst>, bytes.clone(), n);
+		one!("Box<PlainSkip>", Box<PlainSkip>, bytes.clone(), n);
+		one!("[ReprCSkip; 2] (second)", [ReprCSkip; 2], [vec![1u8, 2], bytes.clone()].concat(), if n == 2 { 4 } else { 0 });
+		one!("Vec<Box<ReprCSkip>> (second)", Vec<Box<ReprCSkip>>, [vec![2u8 << 2, 1, 2], bytes.clone()].concat(), if n == 2 { 4 } else { 0 });
+		one!("Box<(ReprCSkip, Tracked)>", Box<(ReprCSkip, Tracked)>, [bytes.clone(), vec![7u8]].concat(), if n == 2 { 3 } else { 0 });
+	}
+}
+
+/// Shared holders of payloads above the 16 KiB preallocation size, cut or damaged part-way.
+fn big_shared_cases(ctx: &mut Ctx) {
+	for (what, bad_at, tail) in [("malformed element", 2000usize, Some(0xffu8)), ("input ends", 2050, None), ("element decoder panics", 1, Some(0xfe)), ("element decoder panics late", 2099, Some(0xfe)), ("complete", 2100, None)] {
+		let mut bs: Vec<u8> = (0..bad_at).map(|i| (i % 100) as u8).collect();
+		if let Some(t) = tail {
+			bs.push(t);
+			bs.extend(std::iter::repeat(3u8).take(2100));
+		}
+		let n = if bad_at == 2100 { 2100 } else { 0 };
+		macro_rules! one {
+			($label:expr, $t:ty) => {{
+				let (_s, problems) = observe(|| <$t>::decode(&mut &bs[..]), n);
+				for p in problems.into_iter().take(3) {
+					ctx.oracle_fail("C10", format!("{} ({} at element {}): {}", $label, what, bad_at, p));
+				}
+				ctx.count("ledger:cases", 1);
+			}};
+		}
+		one!("Rc<[Tracked; 2100]>", Rc<[Tracked; 2100]>);
+		one!("Arc<[Tracked; 2100]>", Arc<[Tracked; 2100]>);
+		one!("Box<[Tracked; 2100]>", Box<[Tracked; 2100]>);
+		one!("Rc<[[Tracked; 3]; 700]>", Rc<[[Tracked; 3]; 700]>);
+	}
+	// 17 elements of 1 KiB
+	for (what, bs) in [("malformed at 16", [vec![1u8; 16], vec![0xff]].concat()), ("ends after 9", vec![2u8; 9]), ("complete", vec![4u8; 17])] {
+		let n = if bs.len() == 17 && bs[16] != 0xff { 17 } else { 0 };
+		let (_s, problems) = observe(|| <Rc<[TrackedBig; 17]>>::decode(&mut &bs[..]), n);
+		for p in problems.into_iter().take(3) {
+			ctx.oracle_fail("C10", format!("Rc<[TrackedBig; 17]> ({}): {}", what, p));
+		}
+		let (_s, problems) = observe(|| <Arc<[TrackedBig; 17]>>::decode(&mut &bs[..]), n);
+		for p in problems.into_iter().take(3) {
+			ctx.oracle_fail("C10", format!("Arc<[TrackedBig; 17]> ({}): {}", what, p));
+		}
+		ctx.count("ledger:cases", 2);
+	}
+}
+
 /// A later marker (not the one directly behind the payload) fails, panics or is missing.
 fn later_marker_cases(ctx: &mut Ctx) {
 	for (what, tail, ok) in [("second marker rejected", &[9u8, 7][..], false), ("second marker missing", &[9][..], false), ("second marker panics", &[9, 0xfe][..], false), ("both accepted", &[9, 9][..], true), ("first marker rejected", &[7, 9][..], false)] {
@@ -528,6 +612,8 @@ pub fn ledger_stream(ctx: &mut Ctx) {
 	holders_under_depth_limit(ctx);
 	trailing_marker_cases(ctx);
 	later_marker_cases(ctx);
+	skipped_default_cases(ctx);
+	big_shared_cases(ctx);
 	// Option / Result / tuples / derived types: fixed shapes, failure at every element position
 	grid!(ctx, "Option<Tracked> (Some)", None, 1, &[1], |bs: &[u8]| <Option<Tracked>>::decode(&mut &bs[..]));
 	grid!(ctx, "Result<Tracked, Tracked> (Err)", None, 1, &[1], |bs: &[u8]| <Result<Tracked, Tracked>>::decode(&mut &bs[..]));
